@@ -721,8 +721,9 @@ func ruleCursorReport(c *Ctx) {
 	// the local that holds the cursor: defined from numberIters or from a helper whose results are of these kinds
 	var cur types.Object
 	ast.Inspect(wf.Decl.Body, func(x ast.Node) bool {
-		if as, ok := x.(*ast.AssignStmt); ok && as.Tok == token.DEFINE && len(as.Lhs) == 1 && len(as.Rhs) == 1 && cur == nil {
-			if k := kindOf(winfo, as.Rhs[0], true, 1) | kindOf(winfo, as.Rhs[0], false, 1); k&kOther == 0 && k != 0 {
+		// cursor := sw.numberIters, or  var cursor uint64 … cursor = sw.numberIters
+		if as, ok := x.(*ast.AssignStmt); ok && (as.Tok == token.DEFINE || as.Tok == token.ASSIGN) && len(as.Lhs) == 1 && len(as.Rhs) == 1 && cur == nil {
+			if k := kindOf(winfo, as.Rhs[0], true, 1) | kindOf(winfo, as.Rhs[0], false, 1); k&kOther == 0 && k&kIters != 0 {
 				if id, ok := as.Lhs[0].(*ast.Ident); ok {
 					cur = winfo.ObjectOf(id)
 				}
@@ -748,6 +749,18 @@ func ruleCursorReport(c *Ctx) {
 						for i, l := range as.Lhs {
 							if id, ok := ast.Unparen(l).(*ast.Ident); ok && winfo.ObjectOf(id) == cur {
 								st = kindOf(winfo, as.Rhs[i], hitTrue, 1)
+							}
+						}
+					}
+					// var cursor uint64 (the zero value), var cursor = …
+					if vs, ok := nd.(*ast.ValueSpec); ok {
+						for i, nm := range vs.Names {
+							if winfo.ObjectOf(nm) == cur {
+								if len(vs.Values) == len(vs.Names) {
+									st = kindOf(winfo, vs.Values[i], hitTrue, 1)
+								} else {
+									st = kZero
+								}
 							}
 						}
 					}
